@@ -1,4 +1,19 @@
+//! E-GEN: generated programs compiled against the repository under test (properties C40, C41).
+
+mod c40;
+mod c41;
+mod cb;
+mod dump;
+mod rng;
+
 fn main() {
-    eprintln!("engine gen: not built yet");
-    std::process::exit(2);
+    let ctx = vcore::Ctx::from_args();
+    match ctx.id.as_str() {
+        "C40" => c40::run(&ctx),
+        "C41" => c41::run(&ctx),
+        other => {
+            eprintln!("engine gen does not serve {other}");
+            std::process::exit(2);
+        }
+    }
 }
